@@ -727,6 +727,9 @@ pub struct Scn3 {
     /// `with_fallback`
     #[serde(default)]
     pub overrides_via_plain: bool,
+    /// the wrapped service takes only this many calls at a time (readiness waits for a slot)
+    #[serde(default)]
+    pub inner_capacity: Option<u32>,
 }
 
 /// Multi-phase half-open histories: trials that outlive their episode, cancels aimed at
@@ -775,6 +778,7 @@ fn gen3_multi_phase(rng: &mut Rng) -> Scn3 {
         reset_at: None,
         probe: true,
         buggify: if rng.chance(1, 2) { rng.next_u64() | 1 } else { 0 },
+        inner_capacity: if rng.chance(1, 6) { Some(rng.range(1, 2) as u32) } else { None },
         overrides_via_plain: rng.chance(1, 2),
         knobs: SchedKnobs::gen(rng, false, 100),
     }
@@ -846,6 +850,7 @@ pub fn gen3(rng: &mut Rng, half_open_bias: bool) -> Scn3 {
         reset_at: if rng.chance(1, 8) { Some(rng.below(3 * wait)) } else { None },
         probe: true,
         buggify: if rng.chance(1, 3) { rng.next_u64() | 1 } else { 0 },
+        inner_capacity: if rng.chance(1, 6) { Some(rng.range(1, 2) as u32) } else { None },
         overrides_via_plain: rng.chance(1, 2),
         knobs: SchedKnobs::gen(rng, faulty, 2 * wait),
     }
@@ -863,6 +868,7 @@ pub fn valid3(s: &Scn3) -> bool {
         && s.reset_at.map(|t| t <= 1500).unwrap_or(true)
         && s.knobs.jumps.len() <= 3
         && s.knobs.jumps.iter().all(|j| j.0 <= 1500 && j.1 <= 200)
+        && s.inner_capacity.map(|c| c >= 1 && c <= 4).unwrap_or(true)
 }
 
 #[derive(Clone)]
@@ -903,13 +909,21 @@ impl Cb {
         }
     }
     async fn call(&mut self, req: Req) -> Result<Resp, CircuitBreakerError<SimErr>> {
+        // arrival = the call itself: with a wrapped service that is not always ready the caller
+        // has to wait for readiness first, as the Tower contract demands
         match self {
             Cb::Plain(c) => match c.ready().await {
-                Ok(s) => s.call(req).await,
+                Ok(s) => {
+                    world::note("arrive", req.id as i64, 0);
+                    s.call(req).await
+                }
                 Err(e) => Err(e),
             },
             Cb::Fb(c) => match c.ready().await {
-                Ok(s) => s.call(req).await,
+                Ok(s) => {
+                    world::note("arrive", req.id as i64, 0);
+                    s.call(req).await
+                }
                 Err(e) => Err(e),
             },
         }
@@ -934,6 +948,9 @@ pub fn run3(s: &Scn3, ctx: &mut RunCtx, prefix: &'static str) -> RunOutput {
                 w.script.by_req.insert((0, i as u32), vec![c.beh]);
             }
             w.script.by_req.insert((0, n as u32), vec![Behaviour { lat_ms: 0, out: Outcome::Ok, yields: 0 }]);
+            if let Some(c) = scn.inner_capacity {
+                w.script.capacity.insert(0, c as i64);
+            }
             w.buggify_state = scn.buggify;
             w.buggify_rate = if scn.buggify != 0 { 30 } else { 0 };
         });
@@ -1025,6 +1042,13 @@ pub fn run3(s: &Scn3, ctx: &mut RunCtx, prefix: &'static str) -> RunOutput {
             kinds.contains(k) && *ms < seq && manual_done.iter().find(|(ds, dk)| dk == k && *ds > *ms).map(|(ds, _)| *ds > seq).unwrap_or(true)
         })
     };
+    // arrival of caller i (the call, after readiness): (seq, us); first poll if it never got that far
+    let arr: Vec<(u64, u64)> = rep
+        .tasks
+        .iter()
+        .enumerate()
+        .map(|(i, t)| notes(&log, "arrive").find(|(_, a, _)| *a == i as i64).map(|(r, _, _)| (r.seq, r.t_us)).unwrap_or((if s.inner_capacity.is_some() { 0 } else { t.first_poll_seq }, t.first_poll_us)))
+        .collect();
     let mut open_episodes = 0;
     let mut half_open_contended = false;
     for (k, (s0, t0, _from, to)) in tr.iter().enumerate() {
@@ -1059,8 +1083,9 @@ pub fn run3(s: &Scn3, ctx: &mut RunCtx, prefix: &'static str) -> RunOutput {
             }
             // callers arriving during the episode are answered at once
             for (i, t) in rep.tasks.iter().enumerate().take(n + 1) {
-                if t.first_poll_seq > *s0 && t.first_poll_seq < s1 && t.first_poll_us < t0.saturating_add(wait) {
-                    let still_open_after_instant = t1.map(|x| x > t.first_poll_us).unwrap_or(true);
+                let (a_seq, a_us) = arr[i];
+                if a_seq > *s0 && a_seq < s1 && a_us < t0.saturating_add(wait) {
+                    let still_open_after_instant = t1.map(|x| x > a_us).unwrap_or(true);
                     if !still_open_after_instant {
                         continue;
                     }
@@ -1070,14 +1095,14 @@ pub fn run3(s: &Scn3, ctx: &mut RunCtx, prefix: &'static str) -> RunOutput {
                             let o = t.out.as_ref().unwrap();
                             let fb = if s.callers.get(i).map(|c| c.via_plain).unwrap_or(false) { None } else { s.fallback_ms };
                             let good = match fb {
-                                None => o.err == Some("OpenCircuit") && t.end_us == t.first_poll_us,
-                                Some(fl) => o.ok.as_ref().map(|r| r.svc == FB_SVC && r.req == i as u32).unwrap_or(false) && t.end_us == t.first_poll_us + fl * 1000,
+                                None => o.err == Some("OpenCircuit") && t.end_us == a_us,
+                                Some(fl) => o.ok.as_ref().map(|r| r.svc == FB_SVC && r.req == i as u32).unwrap_or(false) && t.end_us == a_us + fl * 1000,
                             };
                             if !good && s.knobs.total_jump() == 0 {
                                 world::violation(
                                     "C03.reject_at_once",
                                     if s.fallback_ms.is_some() { "fallback" } else { "plain" },
-                                    format!("caller {} arrived at {}us while open (since {}us, wait {}us) and resolved at {}us with {:?}", i, t.first_poll_us, t0, wait, t.end_us, o),
+                                    format!("caller {} arrived at {}us while open (since {}us, wait {}us) and resolved at {}us with {:?}", i, a_us, t0, wait, t.end_us, o),
                                 );
                             }
                         }
@@ -1089,7 +1114,7 @@ pub fn run3(s: &Scn3, ctx: &mut RunCtx, prefix: &'static str) -> RunOutput {
         }
         if *to == 2 {
             let trials: Vec<_> = calls.iter().filter(|c| c.svc == 0 && c.start_seq > *s0 && c.start_seq < s1).collect();
-            let arrivals = rep.tasks.iter().take(n + 1).filter(|t| t.first_poll_seq > *s0 && t.first_poll_seq < s1).count();
+            let arrivals = arr.iter().take(n + 1).filter(|a| a.0 > *s0 && a.0 < s1).count();
             if arrivals + 1 >= 2 {
                 half_open_contended = true;
                 world::probe("several_arrivals_while_half_open");
